@@ -157,6 +157,16 @@ pub fn shrink_stream(sc: &StreamScenario) -> Vec<StreamScenario> {
                     }
                 }
             },
+            AppOp::WriteCancel { frame, polls } => {
+                let mut s = sc.clone();
+                s.ops[i] = AppOp::Write(frame.clone());
+                c.push(s);
+                if *polls > 0 {
+                    let mut s = sc.clone();
+                    s.ops[i] = AppOp::WriteCancel { frame: frame.clone(), polls: polls - 1 };
+                    c.push(s);
+                }
+            },
             AppOp::Write(f) if f.len() > 4 => {
                 let mut s = sc.clone();
                 s.ops[i] = AppOp::Write(vec![sc.mode.size_byte(4), 3, 1, 3]);
